@@ -203,8 +203,15 @@ def run_case(case, rng):
         vis = set(res.visited)
         case.check(vis <= reach, f"{name}:visited-not-subset-of-reachable", repr(vis - reach))
 
-    astar = case.call("AStarSearch()", lambda: AStarSearch(heuristic_value=lambda s: hval[s], seed=seed,
-                                                          randomize_action_order=rao, tie_breaking_strategy=tb))
+    from mon import defaults as Dflt
+    akw, _om = Dflt.rely_on_defaults(case, rng, "AStarSearch", dict(seed=seed, randomize_action_order=rao, tie_breaking_strategy=tb))
+    if not (hk == "zero" and rng.random() < 0.6):
+        akw["heuristic_value"] = lambda s: hval[s]        # (the zero heuristic IS the documented default: then it is left out)
+    else:
+        case.count("calls_relying_on_documented_defaults")
+    astar = case.call("AStarSearch()", lambda: AStarSearch(**akw))
+    if astar is not case.FAIL:
+        Dflt.in_force(case, "AStarSearch", astar, passed=akw)
     warm = None
     if rng.random() < 0.25:
         # the same planner objects first plan on an unrelated problem over OVERLAPPING labels; nothing may leak
@@ -226,7 +233,9 @@ def run_case(case, rng):
         if res is not case.FAIL:
             validate("astar", res, True, False)
     bfs_seed = seed if rao else rng.choice([None, 3])
-    bfs = BreadthFirstSearch(seed=bfs_seed, randomize_action_order=rao)
+    bkw, _om = Dflt.rely_on_defaults(case, rng, "BreadthFirstSearch", dict(seed=bfs_seed, randomize_action_order=rao))
+    bfs = BreadthFirstSearch(**bkw)
+    Dflt.in_force(case, "BreadthFirstSearch", bfs, passed=bkw)
     if warm is not None:
         case.call("BreadthFirstSearch.plan_on(other problem first)", bfs.plan_on, warm, facts=facts)
     res = case.call("BreadthFirstSearch.plan_on", bfs.plan_on, prob, facts=facts)
